@@ -369,7 +369,11 @@ def run_world(case, stats, record=None):
     cworld = World(case, cold=True) if cold else world
     via_eval = case.get('via_eval')
     saved = None
-    if via_eval:
+    # the module-level caches of yaql.eval are an implementation detail: use
+    # them (shared host context, known engine) only when they are there
+    eval_globals = via_eval and all(hasattr(yaql, n) for n in (
+        '_cached_engine', '_cached_expressions', '_default_context'))
+    if eval_globals:
         saved = (yaql._cached_engine, yaql._cached_expressions,
                  yaql._default_context)
         yaql._cached_engine = world.engine
@@ -422,14 +426,14 @@ def run_world(case, stats, record=None):
                                                for s in case['stmts']]}})
             return viols, info
         # ---- concurrent phase ----
-        if via_eval:
+        if eval_globals:
             # same module-level state as before the baseline
             yaql._cached_engine = world.engine
             yaql._cached_expressions = {}
             yaql._default_context = world.P
         if cold:
             snap0 = cworld.snapshot()
-            if via_eval:
+            if eval_globals:
                 yaql._default_context = cworld.P
         else:
             # fresh host objects for the concurrent phase: state that yaql
@@ -539,6 +543,7 @@ def run_world(case, stats, record=None):
 
 def execute(case, stats):
     seams.HashSeam.install()
+    sched.install_coop_locks()
     undo_it = seams.patch_itertools(2000)
     undo_r = seams.patch_random(777)
     try:
